@@ -174,10 +174,13 @@ Section DictDeser.
                  | _ => Ret true
                  end
              | LBytes =>
-                 match inst with
-                 | JStr s => let! _ := read_bytes s in Ret true
-                 | JBytes b _ => let! _ := of_out (a2b_go false 0 0 0 [] b) in Ret true
-                 | _ => Raise EAttributeError []            (* type(value)().join *)
+                 (* from_serstr(cls, inst, self.binary_encoding): base64 for Json and Yaml; None for
+                    MessagePackDocument, whose decoding handler is the identity *)
+                 match P, inst with
+                 | PMsgpack, _ => Ret true
+                 | _, JStr s => let! _ := read_bytes s in Ret true
+                 | _, JBytes b _ => let! _ := of_out (a2b_go false 0 0 0 [] b) in Ret true
+                 | _, _ => Raise EAttributeError []            (* type(value)().join *)
                  end
              | LInt msl =>
                  match P, inst with
@@ -231,19 +234,73 @@ Section DictDeser.
     | _ => Ret None
     end.
 
-  (** _doc_to_object / _from_dict_value: every recursive call descends in the declared type;
-      [fuel] bounds that descent *)
-  Fixpoint doc_to_object (fuel : nat) (t : ty) (doc : jv) {struct fuel} : res unit :=
-    match fuel with
-    | O => Raise EOutOfFuel []
-    | S fuel' =>
-      let from_dict_value (t : ty) (nillable : bool) (attr : bool) (inst : jv) : res unit :=
-        match t with
-        | TLeaf k => leaf_from_dict_value k nillable attr inst
-        | _ =>
-            (* validate() does nothing for a complex type; then _doc_to_object(cls, inst) *)
-            doc_to_object fuel' t inst
-        end in
+  (** _doc_to_object / _from_dict_value.  Every recursive call descends in the declared type;
+      [fuel] bounds that descent.  The body is written over the recursive call [rec]. *)
+  Section Body.
+    Variable rec : ty -> jv -> res unit.      (* _doc_to_object on a member *)
+
+    (** _from_dict_value(ctx, key, cls, inst, validator) *)
+    Definition from_dict_value (t : ty) (nillable : bool) (attr : bool) (inst : jv) : res unit :=
+      match t with
+      | TLeaf k => leaf_from_dict_value k nillable attr inst
+      | _ => rec t inst        (* validate() does nothing for a complex type; then _doc_to_object *)
+      end.
+
+    (** the Array branch: for i, child in enumerate(doc) *)
+    Fixpoint array_items (elt : ty) (l : list jv) : res unit :=
+      match l with
+      | [] => Ret tt
+      | x :: r => let! _ := from_dict_value elt true false x in array_items elt r
+      end.
+
+    (** for a in v: subinst.append(_from_dict_value(...)); frequencies[k] += 1 *)
+    Fixpoint repeated_items (key : text) (f : field) (attr : bool) (l : list jv) : res (list text) :=
+      match l with
+      | [] => Ret []
+      | a :: ar =>
+          let! _ := from_dict_value (f_ty f) (f_nillable f) attr a in
+          let! names := repeated_items key f attr ar in Ret (key :: names)
+      end.
+
+    (** for k, v in items: the names counted in [frequencies] *)
+    Fixpoint member_items (fs : list field) (l : list (jv * jv)) : res (list text) :=
+      match l with
+      | [] => Ret []
+      | (k, v) :: r =>
+          let! ok := member_key k in
+          match ok with
+          | None => member_items fs r
+          | Some key =>
+              match find_field key fs with
+              | None => member_items fs r
+              | Some f =>
+                  let attr := match f_kind f with KAttr => true | KElem => false end in
+                  if is_multi (f_max f) then
+                    match iterate v with
+                    | None => guard_raise g_hier_repeated_iterable true (Raise ETypeError []) (Ret [])
+                    | Some vs =>
+                        let! n := repeated_items key f attr vs in
+                        let! names := member_items fs r in Ret (n ++ names)
+                    end
+                  else
+                    let! _ := from_dict_value (f_ty f) (f_nillable f) attr v in
+                    let! names := member_items fs r in Ret (key :: names)
+              end
+          end
+      end.
+
+    (** items = doc.items(), else zip(field names, doc), else ValidationError *)
+    Definition doc_items (fs : list field) (doc : jv) : res (list (jv * jv)) :=
+      tryO (nth_try 0 hier_doc_to_object_tries)
+        (match doc with JMap kv => Ret kv | _ => Raise EAttributeError [] end)
+        (fun _ _ =>
+           tryS (nth_try 1 hier_doc_to_object_tries)
+             (match iterate doc with
+              | Some vs => Ret (zip_names fs vs)
+              | None => Raise ETypeError []
+              end)).
+
+    Definition doc_to_object_body (t : ty) (doc : jv) : res unit :=
       match doc with
       | JNull => Ret tt
       | _ =>
@@ -252,64 +309,24 @@ Section DictDeser.
         | TArr _ elt =>
             match iterate doc with
             | None => guard_raise g_hier_array_iterable true (Raise ETypeError []) (Ret tt)
-            | Some items =>
-                (fix go (l : list jv) : res unit :=
-                   match l with
-                   | [] => Ret tt
-                   | x :: r => let! _ := from_dict_value elt true false x in go r
-                   end) items
+            | Some items => array_items elt items
             end
         | TRef c =>
             match class_fields A c with
             | None => Raise EKeyError []
             | Some fs =>
-                (* items = doc.items(), else zip(field names, doc), else ValidationError *)
-                let! items :=
-                  tryO (nth_try 0 hier_doc_to_object_tries)
-                    (match doc with JMap kv => Ret kv | _ => Raise EAttributeError [] end)
-                    (fun _ _ =>
-                       tryS (nth_try 1 hier_doc_to_object_tries)
-                         (match iterate doc with
-                          | Some vs => Ret (zip_names fs vs)
-                          | None => Raise ETypeError []
-                          end)) in
-                let! seen :=
-                  (fix go (l : list (jv * jv)) : res (list text) :=
-                     match l with
-                     | [] => Ret []
-                     | (k, v) :: r =>
-                         let! ok := member_key k in
-                         match ok with
-                         | None => go r
-                         | Some key =>
-                             match find_field key fs with
-                             | None => go r
-                             | Some f =>
-                                 let attr := match f_kind f with KAttr => true | KElem => false end in
-                                 if is_multi (f_max f) then
-                                   match iterate v with
-                                   | None => guard_raise g_hier_repeated_iterable true (Raise ETypeError []) (Ret [])
-                                   | Some vs =>
-                                       let! n :=
-                                         (fix each (l : list jv) : res (list text) :=
-                                            match l with
-                                            | [] => Ret []
-                                            | a :: ar =>
-                                                let! _ := from_dict_value (f_ty f) (f_nillable f) attr a in
-                                                let! names := each ar in Ret (key :: names)
-                                            end) vs in
-                                       let! names := go r in Ret (n ++ names)
-                                   end
-                                 else
-                                   let! _ := from_dict_value (f_ty f) (f_nillable f) attr v in
-                                   let! names := go r in Ret (key :: names)
-                             end
-                         end
-                     end) items in
+                let! items := doc_items fs doc in
+                let! seen := member_items fs items in
                 if soft then check_freq fs seen else Ret tt
             end
         end
-      end
+      end.
+  End Body.
+
+  Fixpoint doc_to_object (fuel : nat) (t : ty) (doc : jv) {struct fuel} : res unit :=
+    match fuel with
+    | O => Raise EOutOfFuel []
+    | S fuel' => doc_to_object_body (doc_to_object fuel') t doc
     end.
 End DictDeser.
 
